@@ -53,7 +53,8 @@ def main():
         for e in entries:
             rule, kw = e[0], (e[2] if len(e) > 2 else {})
             try:
-                obs = classify(rule(repo, "x", **kw))
+                from verif_sa.core import call_rule
+                obs = classify(call_rule(rule, repo, "x", **kw))
             except AnalysisError as ex:
                 print("ANALYSIS-ERROR", rule.__name__, ex)
                 continue
